@@ -710,6 +710,88 @@ async fn room_case(inst: &mut Inst, out: &mut Out, rng: &mut Rng, case_no: u64) 
     out.push(Case { kind: "room".into(), coq: format!("CRoom {}", gn(1 + mods)), obs: vec![got as i64], meta: json!({"accepted_room_mutations": 1 + mods, "room_modified_events": got}) });
 }
 
+/// concurrent bursts of mutations of ONE room definition: several rounds of 4-8 mutate_raw calls spawned
+/// together (one round through a mutation_stream), each adding one distinct user to the group. Observed: the
+/// sequence of RoomModified events of that room with the set of user entries each carries.
+async fn room_burst_case(inst: &mut Inst, out: &mut Out, rng: &mut Rng, case_no: u64) {
+    verif_clock::set(BASE + 9000 + case_no as i64 * 100);
+    let mut p = Parameters::default();
+    p.add("me", base64_encode(&inst.me)).unwrap();
+    let room = inst.app.mutate_raw(r#"mutate { sys.Room{ admin:[{verif_key:$me}] authorisations:[{ name:"g" rights:[{entity:"ns.Person" mutate_self:true mutate_all:true}] users:[{verif_key:$me}] }] } }"#, Some(p)).await.unwrap();
+    let ri = &room.mutate_entities[0];
+    let rid = ri.node_to_mutate.id;
+    let auth_id = ri.sub_nodes.get("authorisations").unwrap()[0].node_to_mutate.id;
+    // drain the creation's events
+    let mut data = 0;
+    while data < 1 {
+        match tokio::time::timeout(wait_bound(), inst.ev.recv()).await { Ok(Ok(Event::DataChanged(_))) => data += 1, Ok(Ok(_)) => {} _ => break }
+    }
+    let mut keys: Vec<Vec<u8>> = vec![inst.me.clone()]; // entry index = position + 1
+    let mut accepted: Vec<u64> = vec![];
+    let mut events: Vec<Vec<u64>> = vec![];
+    let rounds = 2 + rng.below(2);
+    let mut missing = 0u64;
+    for round in 0..rounds {
+        verif_clock::set(BASE + 9000 + case_no as i64 * 100 + 10 + round as i64);
+        let n = 4 + rng.below(5) as usize;
+        let via_stream = round == 1;
+        let mut round_keys = vec![];
+        for j in 0..n { let k = vec![(keys.len() + 1) as u8, 3, 3, (case_no % 251) as u8, round as u8, j as u8]; keys.push(k.clone()); round_keys.push((keys.len() as u64, k)); }
+        let q = r#"mutate { sys.Room{ id:$room_id authorisations:[{ id:$auth_id users:[{verif_key:$k}] }] } }"#;
+        let mk = |k: &Vec<u8>| { let mut p = Parameters::default(); p.add("room_id", base64_encode(&rid)).unwrap(); p.add("auth_id", base64_encode(&auth_id)).unwrap(); p.add("k", base64_encode(k)).unwrap(); p };
+        let expected_data = if via_stream { 1 } else { n };
+        let app = inst.app.clone();
+        let calls = async {
+            let mut oks = vec![];
+            if via_stream {
+                let (send, mut recv) = app.mutation_stream();
+                let drain = tokio::spawn(async move { let mut v = vec![]; while let Some(r) = recv.recv().await { v.push(r.is_ok()); if v.len() == n { break; } } v });
+                for (_, k) in &round_keys { send.send((q.to_string(), Some(mk(k)))).await.unwrap(); }
+                drop(send);
+                let res = drain.await.unwrap();
+                // replies of a stream come in commit order, not in submission order: count them only
+                let okn = res.iter().filter(|b| **b).count();
+                for (i, (ix, _)) in round_keys.iter().enumerate() { if i < okn { oks.push(*ix); } }
+                if okn != n { oks.clear(); oks.push(0); } // partial acceptance through a stream: not attributable
+            } else {
+                let mut hs = vec![];
+                for (ix, k) in &round_keys { let a = app.clone(); let p = mk(k); let ix = *ix; hs.push(tokio::spawn(async move { (ix, a.mutate_raw(q, Some(p)).await.is_ok()) })); }
+                for h in hs { let (ix, ok) = h.await.unwrap(); if ok { oks.push(ix); } }
+            }
+            oks
+        };
+        let ev = &mut inst.ev;
+        let collect = async {
+            let mut got: Vec<Vec<Vec<u8>>> = vec![];
+            let mut data = 0;
+            let mut miss = 0u64;
+            while data < expected_data {
+                match tokio::time::timeout(wait_bound(), ev.recv()).await {
+                    Ok(Ok(Event::DataChanged(_))) => data += 1,
+                    Ok(Ok(Event::RoomModified(r))) => { if r.id == rid { let mut ks: Vec<Vec<u8>> = r.authorisations.get(&auth_id).map(|a| a.users.keys().cloned().collect()).unwrap_or_default(); ks.sort(); got.push(ks); } }
+                    Ok(Ok(_)) => {}
+                    Ok(Err(tokio::sync::broadcast::error::RecvError::Lagged(_))) => { miss += 1; }
+                    _ => { miss += 1; MISSING.fetch_add(1, std::sync::atomic::Ordering::SeqCst); break; }
+                }
+            }
+            (got, miss)
+        };
+        let (oks, (got, miss)) = tokio::join!(calls, collect);
+        missing += miss;
+        accepted.extend(oks);
+        for ks in got { let mut e: Vec<u64> = ks.iter().map(|k| keys.iter().position(|x| x == k).map(|i| i as u64 + 1).unwrap_or(99)).collect(); e.sort(); events.push(e); }
+    }
+    // commit order as the events show it: the entries each event brings that no earlier event carried
+    let mut seen: Vec<u64> = vec![1];
+    let mut order: Vec<u64> = vec![];
+    for e in &events { for x in e { if !seen.contains(x) { seen.push(*x); order.push(*x); } } }
+    let mut obs: Vec<i64> = vec![events.len() as i64];
+    for e in &events { obs.push(e.len() as i64); obs.extend(e.iter().map(|x| *x as i64)); }
+    let l = |v: &Vec<u64>| glist(&v.iter().map(|x| gn(*x)).collect::<Vec<_>>());
+    out.push(Case { kind: "room-burst".into(), coq: format!("CRoomBurst {} {} {}", l(&vec![1]), l(&accepted), l(&order)), obs,
+                    meta: json!({"rounds": rounds, "accepted": accepted.len(), "room_modified_events": events.len(), "lagged_or_missing": missing}) });
+}
+
 #[tokio::main(flavor = "multi_thread")]
 async fn main() {
     let mut out = Out::create();
@@ -765,6 +847,7 @@ async fn main() {
         emit_seq(&mut out, &scn, "directed-nested");
         case_no += 1;
     }
+    for _ in 0..scale(8, 40) { let mut r = rng.fork(); room_burst_case(&mut inst, &mut out, &mut r, case_no).await; case_no += 1; }
     for _ in 0..scale(4, 20) { let mut r = rng.fork(); overlap_case(&mut inst, &mut out, &mut r, case_no).await; case_no += 1; }
     for i in 0..n {
         let mut r = rng.fork();
